@@ -39,7 +39,7 @@ TRUSTED = [
 THEOREMS = [
     "C12_canon_invariant", "C12_canon_invariant_any", "C12_canon_total", "C12_canon_idempotent",
     "C12_canon_declared_order", "C12_ordered_iteration", "C12_ordered_iteration_sequence_only",
-    "C12_unordered_observers", "C12_unordered_permuted_insertions", "C12_aggregate_by_needs_commutativity",
+    "C12_unordered_observers", "C12_unordered_last_write_wins", "C12_unordered_permuted_insertions", "C12_aggregate_by_needs_commutativity",
     "C12_sorted_by_key_needs_injectivity", "C12_example", "C12_maps_example",
 ]
 
